@@ -24,6 +24,7 @@ def main():
 
     mod = None
     cfg = None
+    hist = []  # run indices this process has executed: part of the history of a violating run (replayed when the case alone does not reproduce)
     for line in sys.stdin:
         line = line.strip()
         if not line:
@@ -37,6 +38,7 @@ def main():
                 info = mod.worker_init(cfg) or {}
                 send({"ready": True, "info": info, "pid": os.getpid()})
             elif cmd == "run":
+                hist.append([])
                 for i in msg["indices"]:
                     wall = msg.get("wall_per_run")
                     if wall:
@@ -47,6 +49,9 @@ def main():
                         if wall:
                             faulthandler.cancel_dump_traceback_later()
                     res["i"] = i
+                    if res.get("verdict") in ("violation", "known"):
+                        res["worker_prefix"] = [list(h) for h in hist]  # grouped by command, so that a replay can send the very same byte stream
+                    hist[-1].append(i)
                     send(res)
                 send({"done": True})
             elif cmd == "exec":
